@@ -191,6 +191,12 @@ def _array_c(draw, dtypes, one_d, min_len):
     else:
         vals = draw(st.lists(_np_value(dt, small=(mode == "small")),
                              min_size=size, max_size=size))
+        if dt in _FLOAT_WIDTH and size and draw(st.integers(0, 5)) == 0:
+            # a sweep that ends in (or contains) an infinite value
+            vals = list(vals)
+            vals[-1] = math.inf
+            if size >= 2 and draw(st.booleans()):
+                vals[draw(st.integers(0, size - 2))] = -math.inf
     # memory layout of the array handed to the library: C order, Fortran
     # order, a transposed view or a strided view (same logical values)
     layout = "C"
@@ -409,7 +415,12 @@ def _filename_case(draw, tier):
     changed = draw(st.integers(0, n - 1))
     return dict(part="filename", scalars=base, array=arr, changed=changed,
                 ext=draw(st.sampled_from([".pickle", ".json", ""])),
-                sep=draw(st.sampled_from(["_", "-", "_x_"])))
+                sep=draw(st.sampled_from(["_", "-", "_x_"])),
+                # how the scalars are referenced: '{name}', '{name!s}', or
+                # right-aligned in a field whose width is another parameter
+                # ('{name!s:>{fw}}': nested replacement field of str.format)
+                spec=draw(st.sampled_from([None, None, "conv_s",
+                                           "nested_width"])))
 
 
 PARTS = [
@@ -1173,8 +1184,26 @@ def _check_filename(case, ctx):
             ctx.label("fn:array_" + case["array"]["dtype"])
         else:
             ctx.label("fn:array_not_embedded(extreme values)")
-    tpl = "res" + "".join(case["sep"] + "{%s}" % n for n in names) + \
+    spec = case.get("spec")
+    scalar_names = set(sc["name"] for sc in case["scalars"])
+
+    def field(n):
+        if spec is None or n not in scalar_names:
+            return "{%s}" % n
+        if spec == "conv_s":
+            return "{%s!s}" % n
+        return "{%s!s:>{fw}}" % n
+    tpl = "res" + "".join(case["sep"] + field(n) for n in names) + \
         case["ext"]
+    if spec:
+        ctx.label("fn:spec_" + spec)
+    _make0 = make
+
+    def make(which):    # noqa: F811
+        s = _make0(which)
+        if spec == "nested_width":
+            s.params.add("fw", 14)
+        return s
     a, a2, b = make(0), make(0), make(1)
     pa, pb = case["scalars"][case["changed"]]["pair"]
     va, vb = _build(pa), _build(pb)
@@ -1191,7 +1220,7 @@ def _check_filename(case, ctx):
                         tags)
     if na != replace_dict_values(tpl, a.params.parameters, True):
         raise Violation("filename_not_replace_dict_values", "%r" % na, tags)
-    if any("{%s}" % n in na for n in names):
+    if any(field(n) in na for n in names):
         raise Violation("filename_placeholder_left", "%r" % na, tags)
     if differ and na == nb:
         raise Violation("filename_collision", "values %r and %r of %r give "
